@@ -145,6 +145,8 @@ def check(ctx):
     from . import c07
     c07.r_value_to_structural(ctx, 'R08.6', only={'List', 'Array', 'Option.None', 'Option.Some'})
     c07.r_shared_callee(ctx)
+    from . import c12
+    c12.r_argument_scopes(ctx)      # the folded function's body is compiled in a child scope
     c07.r_layout_tables(ctx, 'R08.7', c07.LAYOUT_LIST, 10)
     from .. import guards as G
     G.compare(ctx, 'R08.8', ['<ast::CallName as ast::AbstractSyntaxTree>::analyze'], G.load_table(), 'call-name analysis (fold arm: signature f(element, accumulator) -> accumulator)', G.GUARD_FIELDS, rowsel=lambda path, r: any(c.endswith('=Fold') for c in r['conds'][:3]))
